@@ -231,6 +231,10 @@ func runCase(d *Def, c *Case) (res Res) {
 			prev = args[len(args)-2]
 		}
 		args = []string{FromAtoms(cfg.Prog), cur, prev}
+		if c.UseRaw {
+			os.Setenv("COMP_LINE", c.RawLine)
+			args = append([]string{}, c.RawArgs...)
+		}
 	}
 	rest, err := b.Root.Parse(args)
 	if c.Comp != "" {
